@@ -23,4 +23,4 @@ package config
 //@     (result1 == nil && result0 == iface(publicKeyAlgoName[lowerOf(data.(string))]))
 //@   ensures [algorithm-by-number] (kindOf(f) == 24 && t == algoType() && !(lowerOf(data.(string)) in dom(publicKeyAlgoName))) ==>
 //@     ((result1 == nil <==> atoiOK(data.(string), 0)) && (result1 != nil ==> result0 == nil) &&
-//@      (result1 == nil ==> (typeof(result0) == x509.PublicKeyAlgorithm && pl(result0) == atoi(data.(string)))))
+//@      (result1 == nil && atoi(data.(string)) < 9223372036854775808 ==> (typeof(result0) == x509.PublicKeyAlgorithm && pl(result0) == atoi(data.(string)))))
